@@ -22,6 +22,7 @@
 #include <fstream>
 #include <iostream>
 #include <map>
+#include <set>
 #include <sstream>
 
 using namespace FEAT;
@@ -143,6 +144,42 @@ namespace
       }
     }
 
+    // topology of a mesh part (given in the file for topology="full", deduced from the parent by the MeshNodeLinker for
+    // topology="parent"): identical after the round trip, and consistent with the parent mesh - entity e of the part is the
+    // parent entity its mapping names, so both have the same vertices (as sets of parent vertex indices)
+    template<int d_>
+    static void cmp_part_topology(const Geometry::MeshPart<MeshType>& a, const Geometry::MeshPart<MeshType>& b, const std::string& where)
+    {
+      if constexpr(d_ >= 1)
+      {
+        const auto& ia = a.template get_index_set<d_, 0>(); const auto& ib = b.template get_index_set<d_, 0>();
+        if(ia.get_num_entities() != ib.get_num_entities()) sim::fail("ROUNDTRIP_MESHPART", where + ": topology of the mesh part changed its entity count in dimension " + std::to_string(d_));
+        for(Index e = 0; e < ia.get_num_entities(); ++e) for(int j = 0; j < ia.num_indices; ++j)
+          if(ia(e, j) != ib(e, j)) sim::fail("ROUNDTRIP_MESHPART", where + ": topology of the mesh part changed (dimension " + std::to_string(d_) + ", entity " + std::to_string(e) + ")");
+        cmp_part_topology<d_ - 1>(a, b, where);
+      }
+    }
+    template<int d_>
+    static void check_part_topology(const Geometry::MeshPart<MeshType>& p, const MeshType& m, const std::string& where)
+    {
+      if constexpr(d_ >= 1)
+      {
+        const auto& ip = p.template get_index_set<d_, 0>();
+        const auto& im = m.template get_index_set<d_, 0>();
+        const auto& t0 = p.template get_target_set<0>();
+        const auto& td = p.template get_target_set<d_>();
+        if(ip.get_num_entities() == td.get_num_entities())
+          for(Index e = 0; e < ip.get_num_entities(); ++e)
+          {
+            std::set<Index> a, b;
+            bool ok = td[e] < im.get_num_entities();
+            for(int j = 0; j < ip.num_indices && ok; ++j) { if(ip(e, j) >= t0.get_num_entities()) { ok = false; break; } a.insert(t0[ip(e, j)]); b.insert(im(td[e], j)); }
+            if(!ok || a != b) sim::fail("MESHPART_TOPOLOGY", where + ": entity " + std::to_string(e) + " of dimension " + std::to_string(d_) + " of the mesh part does not have the vertices of the parent entity its mapping names");
+          }
+        check_part_topology<d_ - 1>(p, m, where);
+      }
+    }
+
     static bool near(double a, double b) { return std::abs(a - b) <= 2e-5 * std::abs(a) + 1e-300; }
 
     static void compare_docs(const Doc& a, const Doc& b, const std::string& where)
@@ -166,6 +203,7 @@ namespace
         cmp_targets<dim>(*pa, *pb, where + " part " + n);
         if(a.node->find_mesh_part_chart_name(n) != b.node->find_mesh_part_chart_name(n)) sim::fail("ROUNDTRIP_MESHPART", where + ": chart link of mesh part '" + n + "' changed");
         if(pa->has_topology() != pb->has_topology()) sim::fail("ROUNDTRIP_MESHPART", where + ": topology flag of mesh part changed");
+        if(pa->has_topology()) { cmp_part_topology<dim>(*pa, *pb, where + " part " + n); if(mb) check_part_topology<dim>(*pb, *mb, where + " part " + n); }
         // attributes
         const auto& aa = pa->get_mesh_attributes(); const auto& ab = pb->get_mesh_attributes();
         if(aa.size() != ab.size()) sim::fail("ROUNDTRIP_ATTRIBUTE", where + ": attribute count of mesh part '" + n + "' changed");
